@@ -174,6 +174,30 @@ fn judge_with(pairs: bool) -> impl Fn(&Prog, &mut Ctx) + Sync + Send {
             }
             ctx.sample();
         }
+        // (f) a layout-only edit between two direct statements that read DATA: the read pointer is not moved by it
+        if let Some(last) = p.lines.last() {
+            let d = &last.stmts;
+            let text = render_stmts(d);
+            if contains(d, &|s| matches!(s, Stmt::Read(_))) && !has_line_refs(d) && !contains(d, &|s| matches!(s, Stmt::Rem(_) | Stmt::Data(_))) {
+                let mut stored = p.clone();
+                stored.lines.pop();
+                let desc = format!("stored [{}]: `{}` twice vs with a filler line inserted / inserted and deleted in between", stored.text(), text);
+                if ctx.begin(&desc) {
+                    let a = session_text(&stored.render(), &[text.clone(), text.clone()], &replies());
+                    let b = session_text(&stored.render(), &[text.clone(), "5 REM".to_string(), text.clone()], &replies());
+                    let c = session_text(&stored.render(), &[text.clone(), "65000 PRINT \"zz\"".to_string(), "65000".to_string(), text.clone()], &replies());
+                    match (a, b, c) {
+                        (Ok(a), Ok(b), Ok(c)) => {
+                            if !same_or_prefix(&a, &b) || !same_or_prefix(&a, &c) {
+                                ctx.violation("edit-between-direct-reads/transcript-differs", format!("no edit {:?}, filler inserted {:?}, inserted and deleted {:?}", a, b, c));
+                            }
+                            ctx.nontrivial(hash64(&("edit-between", &a.0)));
+                        }
+                        _ => ctx.skip("panic in direct statement (C03's business)"),
+                    }
+                }
+            }
+        }
         // (d) stored program size under a direct statement, (e) direct list vs one-line program
         if let Some(last) = p.lines.last() {
             let d = &last.stmts;
